@@ -33,7 +33,7 @@ def run(ck):
             deaths = vlib.run_executions(exe, lambda st: ["c12", "enum", which, doset, n] + ALPHA, 1, tp, timeout=1200)
             vlib.conformance(ck, "G:all-pointers(tree %d,%s,len<=%d)" % (which, "set+setf" if doset else "get+getf", n),
                              "TracePointer", "trace.cfg", tp, deaths, diag_of, min_events=10, timeout=1800, nshards=1)
-    n = 1200 if thorough else 200
+    n = 8000 if thorough else 200
     tp = os.path.join(ck.dir, "v.ndjson")
     deaths = vlib.run_executions(exe, lambda st: ["c12", "drive", st, n, 40], n, tp, timeout=1200)
     vlib.conformance(ck, "V:random-trees-and-pointers", "TracePointer", "trace.cfg", tp, deaths, diag_of, min_events=n, timeout=1800)
